@@ -45,7 +45,8 @@ CLAIMED['C01'] = {
             'terminator-delimited pieces of the text (Spec/C01_spec.v, written without buffer or schedule); '
             'C01_segment_construction that each raw string becomes exactly the specified segment (ISA never split, '
             'blanks/trailing separators flagged); C01_format_parse_* / C01_reread the format-then-read round trip up to '
-            'the documented trimming, exactness when nothing is to trim, and idempotence; C01_path_stream_agree that a '
+            'the documented trimming, exactness EXACTLY for the segments of the computable shape the parser produces '
+            '(C01_format_parse_exact_interior: an iff; interior empty elements / components included), and idempotence; C01_path_stream_agree that a '
             'path source is the same stream under the regenerated open() arguments. Model and code are run on documents '
             'over 5-8 delimiter triples x 5 line conventions, terminators at every offset -2..+2 around k*8192, segments '
             'longer than 1-3 buffers, under four read schedules, as stream and by path, and the extracted spec is '
